@@ -542,3 +542,55 @@ func genGeneral(r *hx.Rng) string {
 		return sb.String()
 	}
 }
+
+// ---------------------------------------------------------------------------------------------- degenerate corpus
+//
+// Non-rectilinear polygons with vertices on a small integer lattice: shared vertices, vertices on edges, coincident
+// slanted edges, concurrent edges.  These inputs are OUTSIDE the randomly explored domain of the property; this
+// generator only exists to (re)create the fixed corpus file corpus/C05/general.degenerate.ops
+// (`harness gen degenerate 1 <n>`); calls the unchanged clipper does not get right are not part of the corpus.
+func genDegenerate(r *hx.Rng) string {
+	n := r.Range(2, 5)
+	contour := func() icontour {
+		k := r.Range(3, 5)
+		c := make(icontour, k)
+		for i := range c {
+			c[i] = ipt{r.Range(0, n), r.Range(0, n)}
+		}
+		return c
+	}
+	mk := func() ipoly {
+		var p ipoly
+		for i, k := 0, r.Range(1, 2); i < k; i++ {
+			p = append(p, contour())
+		}
+		return p
+	}
+	a := mk()
+	b := mk()
+	switch r.Intn(4) {
+	case 0: // B repeats a contour of A (coincident edges, possibly crossed by the other contours)
+		b[0] = a[0]
+	case 1: // B repeats a contour of A reversed
+		c := a[r.Intn(len(a))]
+		d := make(icontour, len(c))
+		for i := range c {
+			d[i] = c[len(c)-1-i]
+		}
+		b[0] = d
+	}
+	var sb strings.Builder
+	// sample points: spacing 1/2 with offsets (1/16, 3/16) over the square plus a border of one cell; such points are
+	// never on a line of slope 0, ±1, ±2, ±1/2, ∞ through lattice points (the Lean margin test drops the rest)
+	cnt := 0
+	var pts strings.Builder
+	for i := -2; i < 2*(n+1); i++ {
+		for j := -2; j < 2*(n+1); j++ {
+			pts.WriteString(" " + strconv.Itoa(8*i+1) + "/16 " + strconv.Itoa(8*j+3) + "/16")
+			cnt++
+		}
+	}
+	sb.WriteString(hx.Pick(r, ops) + " " + hx.Pick(r, fts) + " P 1/64 " + strconv.Itoa(cnt) + pts.String())
+	sb.WriteString(" A " + fmtIPoly(a) + " B " + fmtIPoly(b))
+	return sb.String()
+}
